@@ -34,11 +34,13 @@ type kase struct {
 	Expr string `json:"expr"`
 	Ix   []int  `json:"ix"`
 	Full bool   `json:"full"`
+	Wide bool   `json:"wide,omitempty"` // wide-range family (model.WideConstraints / WideAtoms)
 }
 
 var atoms = model.ScalarAtoms()
 
 func run(r *core.Run) {
+	runWide(r)
 	reduced := model.ScalarConstraints(false)
 	full := model.ScalarConstraints(true)
 	plan := []struct {
@@ -72,7 +74,40 @@ func run(r *core.Run) {
 				av = compileAtoms(ctx)
 			}
 			c := kase{Ix: append([]int{}, ix...), Full: p.full}
-			r.Guard(c, func() { check(r, ctx, av, p.cs, c) })
+			r.Guard(c, func() { check(r, ctx, atoms, av, p.cs, c) })
+			return true
+		})
+	}
+}
+
+func compileAtomList(ctx *cue.Context, as []model.Atom) []cue.Value {
+	out := make([]cue.Value, len(as))
+	for i, a := range as {
+		out[i] = ctx.CompileString(a.Src)
+	}
+	return out
+}
+
+// runWide: the wide-range family (ranges that span a machine integer type).
+func runWide(r *core.Run) {
+	wa, wc := model.WideAtoms(), model.WideConstraints()
+	kmax := 3
+	for k := 2; k <= kmax; k++ {
+		r.Section(fmt.Sprintf("wide ranges: constraints=%d k=%d x %d boundary atoms", len(wc), k, len(wa)))
+		ctx := cuecontext.New()
+		av := compileAtomList(ctx, wa)
+		n := 0
+		gen.Multisets(k, len(wc), func(ix []int) bool {
+			if !r.Mine() {
+				return !r.Expired()
+			}
+			n++
+			if n%2000 == 0 {
+				ctx = cuecontext.New()
+				av = compileAtomList(ctx, wa)
+			}
+			c := kase{Ix: append([]int{}, ix...), Wide: true}
+			r.Guard(c, func() { check(r, ctx, wa, av, wc, c) })
 			return true
 		})
 	}
@@ -93,7 +128,12 @@ func replay(r *core.Run, raw json.RawMessage) {
 		return
 	}
 	ctx := cuecontext.New()
-	check(r, ctx, compileAtoms(ctx), model.ScalarConstraints(c.Full), c)
+	if c.Wide {
+		wa := model.WideAtoms()
+		check(r, ctx, wa, compileAtomList(ctx, wa), model.WideConstraints(), c)
+		return
+	}
+	check(r, ctx, atoms, compileAtoms(ctx), model.ScalarConstraints(c.Full), c)
 }
 
 func exprOf(cs []model.Constraint, ix []int) string {
@@ -136,7 +176,7 @@ func toAtom(v cue.Value) (model.Atom, bool) {
 	return model.Atom{}, false
 }
 
-func check(r *core.Run, ctx *cue.Context, av []cue.Value, cs []model.Constraint, c kase) {
+func check(r *core.Run, ctx *cue.Context, atoms []model.Atom, av []cue.Value, cs []model.Constraint, c kase) {
 	c.Expr = exprOf(cs, c.Ix)
 	e := ctx.CompileString(c.Expr)
 	sat := func(a model.Atom) bool {
